@@ -40,6 +40,8 @@ def compare(exp, got, check_header=True):
     """Returns None if the engine outcome agrees with the reference outcome, else a short reason."""
     if exp.error is not None:
         cls, nr = exp.error
+        if cls == 'sort':
+            return None   # incomparable sort keys (None against a string): outside every property, whatever the engine does
         if got['error'] is None:
             return 'expected %s error%s, query succeeded' % (cls, '' if nr is None else ' at record %d' % nr)
         gcls, gnr, _ = got['error']
